@@ -288,6 +288,9 @@ func Run(c *core.Ctx) int {
 		// addon combinations and transplanted collections (history.go)
 		cases = append(cases, addonCombinations(invoices, addons)...)
 		cases = append(cases, transplants(invoices)...)
+		// tax summaries that arrive in the document: the calculated summary of every example stored in a
+		// preceding reference / the payment lines of every other example of its directory (stored.go)
+		cases = append(cases, storedSummaries(examples, c.Pick(2, 1))...)
 		// the customer-rates family (customerrates.go): grid + random documents
 		for i, sp := range crSpecs(c.Rng, c.Pick(400, 20000)) {
 			sp := sp
@@ -369,12 +372,14 @@ func Run(c *core.Ctx) int {
 			kind = "customer-rates"
 		} else if strings.Contains(cs.Name, "@") {
 			kind = "example+addon-combination"
+		} else if strings.Contains(cs.Name, "~") {
+			kind = "example+stored-summary"
 		} else if strings.Contains(cs.Name, "&") {
 			kind = "example+transplant"
 		} else if strings.Contains(cs.Name, "+") {
 			kind = "example+addon"
 		}
-		if cs.Doc == nil && cs.CR == nil && rc.Data == nil {
+		if cs.Doc == nil && cs.CR == nil && rc.Data == nil && !strings.Contains(cs.Name, "~") {
 			pool, poolFirst = append(pool, cs), append(poolFirst, sig(env))
 		}
 		c.Count("kind:"+kind, 1)
@@ -445,7 +450,7 @@ func Run(c *core.Ctx) int {
 		// (2b) the same for the envelope once it is signed and carries header entries in an order that is
 		// not the sorted one (stamps are only allowed on signed envelopes): read, validate, digest, verify
 		// with and without the key, extract — the bytes written afterwards are the bytes read
-		if i%3 == 0 || (cs.Doc == nil && !strings.ContainsAny(cs.Name, "@&")) {
+		if i%3 == 0 || (cs.Doc == nil && !strings.ContainsAny(cs.Name, "@&~")) {
 			e3 := new(gobl.Envelope)
 			if json.Unmarshal(b1, e3) == nil && e3.Validate() == nil {
 				var serr error
